@@ -140,3 +140,43 @@ func verif_C17_trip() {
 		verifAssert(got.Message == want.Message, "C17.client-text")
 	}
 }
+
+// verif_C17_lookalike: the backend opts out of enhanced codes (NoEnhancedCode)
+// and its message begins with text that merely starts like one: "d.d.d"
+// followed by one arbitrary octet. Unless that octet is the space that makes
+// it exactly an enhanced code followed by text (ambiguous on the wire, not
+// judged), the client must return the message unaltered and no enhanced code.
+func verif_C17_lookalike() {
+	x := nondetByte()
+	// (a digit would extend the last component: still exactly an enhanced code)
+	assume(verifTextOctet(x) && x != ' ' && !(x >= '0' && x <= '9'))
+	msg := "5.7.1" + string([]byte{x}) + " relaying denied"
+	which := verifChoice(2)
+	berr := &SMTPError{Code: 550, EnhancedCode: NoEnhancedCode, Message: msg}
+	be := &vbackend{}
+	if which == 0 {
+		be.mailErr = func(string) error { return berr }
+	} else {
+		be.rcptErr = func(string) error { return berr }
+	}
+	s, _ := verifServer(be)
+	vc, _, _ := verifServe(s, []byte("EHLO c\r\nMAIL FROM:<a@v>\r\nRCPT TO:<b@v>\r\n"), io.EOF)
+	cl := NewClient(&vconn{in: vc.out, final: io.EOF})
+	cerr := cl.Hello("c")
+	if cerr == nil {
+		cerr = cl.Mail("a@v", nil)
+	}
+	if which == 1 && cerr == nil {
+		cerr = cl.Rcpt("b@v", nil)
+	}
+	got, ok := cerr.(*SMTPError)
+	verifAssert(ok && got != nil, "C17.lookalike-client-returns-smtperror")
+	if !ok || got == nil {
+		return
+	}
+	verifObserve("c17la", x, which, got.Code, got.Message, got.EnhancedCode[0])
+	verifAssert(got.Code == 550, "C17.lookalike-code")
+	verifAssert(got.EnhancedCode == EnhancedCodeNotSet, "C17.lookalike-no-invented-enhanced-code")
+	verifAssert(got.Message == msg, "C17.lookalike-text-intact")
+	verifReach("C17.lookalike-end")
+}
